@@ -148,15 +148,27 @@ def ensure():
     h = tree_hash()
     dest = os.path.join(BUILD, "stage-" + h)
     if os.path.isdir(dest):
+        try:
+            os.utime(dest, None)
+        except OSError:
+            pass
         return dest
     lock = open(os.path.join(BUILD, ".lock"), "w")
     fcntl.flock(lock, fcntl.LOCK_EX)
     try:
         if not os.path.isdir(dest):
-            # keep disk use bounded: drop older stages
+            # keep disk use bounded: drop stages that have not been used for hours (never a recent one:
+            # another check process may be running from it right now)
+            import time
+
             for name in os.listdir(BUILD):
+                pth = os.path.join(BUILD, name)
                 if name.startswith("stage-") and name != "stage-" + h:
-                    shutil.rmtree(os.path.join(BUILD, name), ignore_errors=True)
+                    try:
+                        if time.time() - os.path.getmtime(pth) > 6 * 3600:
+                            shutil.rmtree(pth, ignore_errors=True)
+                    except OSError:
+                        pass
             _build(dest)
     finally:
         fcntl.flock(lock, fcntl.LOCK_UN)
